@@ -627,22 +627,25 @@ class DataflowTransactionContext(ABC):  # pylint: disable=too-few-public-methods
             reachin_information = self._null_set(key)
 
         path_context = self._path_contexts[key]
+        jump_information = self._null_set(key)
         for prev_b in prev_blocks_global(self._function, block):
             # print(f"block:", repr(block),"prev_b ", repr(prev_b), f"block: {block.__hash__()}, prev_b: {prev_b.__hash__()}")
             # print(path_context)
             # print(path_context[block])
-            reachin_information = self._union(
-                key,
-                reachin_information,
-                self._intersection(key, reachout[prev_b], path_context[block][prev_b]),
-            )
+            information = self._intersection(key, reachout[prev_b], path_context[block][prev_b])
+            if block.is_sub_return_point and not prev_b.is_retsub_block:
+                # prev_b jumps to this return point directly, without executing the subroutine.
+                jump_information = self._union(key, jump_information, information)
+                continue
+            reachin_information = self._union(key, reachin_information, information)
 
         if block.is_sub_return_point:
             # this block is the return point for callsub instruction present in `block.callsub_block`
-            # execution will only reach this block, if it reaches `block.callsub_block`
+            # execution returning from the subroutine will only reach this block, if it reaches `block.callsub_block`
             reachin_information = self._intersection(
                 key, reachin_information, reachout[block.callsub_block]
             )
+            reachin_information = self._union(key, reachin_information, jump_information)
 
         return reachin_information
 
